@@ -45,16 +45,25 @@ func repoDir() string {
 func hashTree(repo string, conc, shim bool) string {
 	h := sha256.New()
 	var files []string
-	ents, _ := os.ReadDir(repo)
-	for _, e := range ents {
-		n := e.Name()
-		if e.IsDir() || strings.HasSuffix(n, "_test.go") {
-			continue
+	filepath.WalkDir(repo, func(p string, d fs.DirEntry, err error) error {
+		if err != nil {
+			return nil
+		}
+		n := d.Name()
+		if d.IsDir() {
+			if p != repo && (strings.HasPrefix(n, ".") || n == "testdata") {
+				return filepath.SkipDir
+			}
+			return nil
+		}
+		if strings.HasSuffix(n, "_test.go") {
+			return nil
 		}
 		if strings.HasSuffix(n, ".go") || n == "go.mod" || n == "go.sum" {
-			files = append(files, filepath.Join(repo, n))
+			files = append(files, p)
 		}
-	}
+		return nil
+	})
 	filepath.WalkDir(root, func(p string, d fs.DirEntry, err error) error {
 		if err != nil {
 			return nil
